@@ -764,6 +764,12 @@ func cmdDrive(args []string) {
 		fmt.Printf("violation in run %d: oracle=%s sig=%s\n", firstViol.I, firstViol.Viol.Oracle, firstViol.Viol.Sig)
 		// confirm in a fresh process
 		v, _, _ := replayInChild(*scratch, rp, "confirm", p.Race())
+		for try := 0; try < 3 && !sameViolation(v, firstViol.Viol) && firstViol.Viol.Oracle == "race"; try++ {
+			// the schedule replays exactly; whether the race detector still holds the earlier access of a pair in its
+			// bounded per-location history (and still knows a goroutine that has finished) does not always. A report
+			// is never spurious, so a race that shows in one of a few identical replays is confirmed.
+			v, _, _ = replayInChild(*scratch, rp, fmt.Sprintf("confirm%d", try), p.Race())
+		}
 		if !sameViolation(v, firstViol.Viol) {
 			// The scenario alone does not reproduce it. The violation may depend on process-wide state left
 			// behind by the runs the same worker executed before: replay that worker's whole sequence.
